@@ -186,3 +186,27 @@ func VP_C03_Primitives() {
 	vp.Assert(vp.Implies(in, vp.And(p.Z >= mn.Z, p.Z <= mx.Z)), "contained points are inside the bounds (z)")
 	vp.Reach("end")
 }
+
+// VP_C06_TorusSDF: torus about the z axis through a symbolic centre with
+// symbolic radii (inner < outer): the SDF is the inner radius minus the
+// distance to the centre ring, for every query point including the points of
+// the axis of symmetry (strictFP=1: no division by zero on the way); the
+// sign agrees with Contains.
+func VP_C06_TorusSDF() {
+	tor := &Torus{Center: vpPoint("center"), Axis: Z(1), InnerRadius: vp.Float64("inner"), OuterRadius: vp.Float64("outer")}
+	vp.Assume(vp.And(tor.InnerRadius > 0.01, tor.OuterRadius > tor.InnerRadius))
+	c := vpPoint("c")
+	if vp.Param("onAxis") == 1 {
+		c.X, c.Y = tor.Center.X, tor.Center.Y
+	}
+	sdf := tor.SDF(c)
+	d := c.Sub(tor.Center)
+	rho := vp.Float64("rho")
+	vp.Assume(rho >= 0)
+	vp.AssumeEq(rho*rho, d.X*d.X+d.Y*d.Y)
+	ring2 := (rho-tor.OuterRadius)*(rho-tor.OuterRadius) + d.Z*d.Z
+	s := tor.InnerRadius - sdf
+	vp.Assert(vp.And(s >= 0, s*s == ring2), "SDF is the inner radius minus the distance to the centre ring")
+	vp.Assert(tor.Contains(c) == (ring2 <= tor.InnerRadius*tor.InnerRadius), "Contains is the closed tube")
+	vp.Reach("end")
+}
